@@ -36,10 +36,10 @@ def cq_obs(obs):
                "None" if t is None else "(Some %s)" % ("true" if t else "false"), "true" if obs["text_ok"] else "false"))
 
 
-def observe(cases, chunk=150, **extra):
+def observe(cases, chunk=150, pyflags=(), **extra):
     payloads = [dict(extra, cases=cases[i:i + chunk]) for i in range(0, len(cases), chunk)]
     obs = []
-    for r in C.run_impl_parallel("impl_expr.py", payloads):
+    for r in C.run_impl_parallel("impl_expr.py", payloads, pyflags=pyflags):
         obs.extend(r)
     return obs
 
